@@ -80,8 +80,10 @@ def run(tier="quick"):
         if r is None:
             raise facts.AnalysisBroken("token loop of %s not identified" % nm)
         consts = {}
-        for g in f.unit.functions.values():
-            if "_init" not in g.name or g.body is None:
+        for g in r[3].unit.functions.values():
+            # every constant the unit stores into an 8-bit field (the defaults, wherever they are set: init functions, done, a
+            # helper); the field counts as configured to that character when all such stores agree
+            if g.body is None:
                 continue
             for x in walk(g.body):
                 if x.get("k") == "assign" and x.get("op") == "=" and X.strip(x["ch"][0]).get("k") == "member" and X.const_val(x["ch"][1]) is not None \
